@@ -54,7 +54,11 @@ def make_case(family, i, rng, tier):
         if e['kind'] == 'abandoned':
             e['at'] = rng.randrange(0, 8)
             e['mech'] = rng.choice(['break', 'raise', 'close', 'rebind',
-                                    'rebind'])
+                                    'rebind', 'hold', 'hold'])
+            # 'hold': the consumer keeps the abandoned generator and lets go
+            # of it at this event of the LAST connection
+            e['release_at'] = rng.choice(['connected', 'ready', 'text',
+                                          'poll', 'ping'])
         prev.append(e)
     compress = rng.random() < 0.6 or any(
         e['kind'] in ('mid_compressed', 'inflate_error', 'sent_compressed')
@@ -106,7 +110,10 @@ def make_case(family, i, rng, tier):
             # absolute time) would decide between > and <=
             'gaps': [rng.choice([0, 300007, 1200011]) for _ in range(3)],
             'cut_seed': rng.getrandbits(32), 'seg': 'cuts', 'ncuts': 4,
-            'close_last': rng.choice(['server', 'app', 'none']),
+            # early_app: close() between Connected and Ready of the last
+            # connection, and a server that never answers it: only the
+            # close timer (started from the session clock) ends it
+            'close_last': rng.choice(['server', 'app', 'none', 'early_app']),
             # the server of the LAST connection may decline the extension
             # although earlier connections negotiated it
             'last_declines': compress and rng.random() < 0.25}
@@ -229,6 +236,8 @@ def _last(case, attempt):
         tail = [{'op': 'await_close', 'timeout': 9000000},
                 S.send(peer.enc_frame(8, peer.enc_close_payload(1000, 'ack')),
                        after=400031), S.eof(after=1003)]
+    elif case.get('close_last') == 'early_app':
+        tail = [{'op': 'silence'}]
     else:
         tail = [S.eof(after=2500037)]
     sc = ST.stream_scenario(case, enc, tail,
@@ -240,6 +249,9 @@ def _last(case, attempt):
              {'when': {'name': 'binary', 'nth': 0, 'attempt': attempt},
               'do': [{'op': 'send_binary', 'hex': '00ff' * 40,
                       'compress': False}]}]
+    if case.get('close_last') == 'early_app':
+        rules.append({'when': {'name': 'connected', 'attempt': attempt},
+                      'do': [{'op': 'close', 'code': 1001, 'reason': 'early'}]})
     if case.get('close_last') == 'app':
         rules.append({'when': {'name': 'poll', 'nth': 2, 'attempt': attempt},
                       'do': [{'op': 'close', 'code': 1000, 'reason': 'end'}]})
@@ -277,6 +289,12 @@ def build(case):
                           'do': [{'op': 'abandon',
                                   'how': e.get('mech', 'break')}]})
     conn_last, rules_last, _ = _last(case, n)
+    for e in case['prev']:
+        if e['kind'] == 'abandoned' and e.get('mech') == 'hold':
+            rules_last = [{'when': {'name': e.get('release_at', 'ready'),
+                                    'nth': 0, 'attempt': n},
+                           'do': [{'op': 'release_old'}]}] + rules_last
+            break
     chain = dict(base, conns=conns + [conn_last], app=rules + rules_last,
                  n_connects=n + 1)
     return ref, chain, enc.expected
@@ -357,6 +375,11 @@ def execute(case):
     if case.get('close_last') == 'app' and got_ref and \
             got_ref[-1][0] == 'closed':
         exp = exp + [('closed', 1000, 'ack')]
+    if case.get('close_last') == 'early_app':
+        # the close timer may end the connection before the last segments
+        # have arrived: a prefix is what construction guarantees
+        res.stats['probe:closed_before_ready_on_last'] += 1
+        exp = exp[:len(got_ref)]
     if got_ref != exp:
         res.bad('C17/fresh_object_wrong',
                 'a freshly constructed WebSocket did not produce the '
